@@ -31,11 +31,15 @@ impl LazyClient {
     }
 
     /// Ensures the connection is initialised and ready to handle events.
+    ///
+    /// Concurrent callers share a single connection attempt, a caller which did
+    /// not win the initialisation waits for the winner rather than racing it.
     pub async fn get_or_init(&self) -> Result<&Mutex<SendRequest<Body>>, Error> {
-        if let Some(existing) = self.client.get() {
-            return Ok(existing);
-        }
+        self.client.get_or_try_init(|| self.open()).await
+    }
 
+    /// Opens a new connection to the remote.
+    async fn open(&self) -> Result<Mutex<SendRequest<Body>>, Error> {
         let io = timeout(
             Duration::from_secs(2),
             turmoil::net::TcpStream::connect(self.addr),
@@ -61,7 +65,6 @@ impl LazyClient {
             }
         });
 
-        self.client.set(Mutex::new(sender)).unwrap();
-        Ok(self.client.get().unwrap())
+        Ok(Mutex::new(sender))
     }
 }
